@@ -69,9 +69,11 @@ def signals(rec):
     nodes = [fl(v) for v in rec['xi']]
     T = 2.0
     bp = [j for j in range(len(rec['points'])) if j % (sub + 1) == 0]
-    for meth in (MultipleShooting, DirectCollocation):
+    # the same sample points through every split of the subdivision into M integrator steps x refine
+    splits = [(M, (sub + 1) // M) for M in range(1, sub + 2) if (sub + 1) % M == 0]
+    for meth, M, R in [(m_, M_, R_) for m_ in (MultipleShooting, DirectCollocation) for (M_, R_) in splits]:
         for with_der in ((False, True) if d >= 1 else (False,)):
-            tag = meth.__name__[:2]
+            tag = meth.__name__[:2] + ('' if M == 1 else ':M%dr%d' % (M, R))
             try:
                 ocp = Ocp(t0=0.5, T=T)
                 x = ocp.state(); u = ocp.control()
@@ -83,7 +85,7 @@ def signals(rec):
                 ocp.add_objective(ocp.integral(u ** 2 + v ** 2))
                 ocp.subject_to(v <= 100)
                 ocp.solver('ipopt')
-                kw = dict(N=N, M=1, grid=FunctionGrid(lambda n: list(nodes)))
+                kw = dict(N=N, M=M, grid=FunctionGrid(lambda n: list(nodes)))
                 ocp.method(meth(intg='rk', **kw) if meth is MultipleShooting else meth(**kw))
                 quiet(lambda: ocp._transcribed)
                 opti, vx, vp = _inputs(ocp)
@@ -105,17 +107,17 @@ def signals(rec):
                 if not with_der:
                     _, vs = quiet(ocp.sample, v, grid='control')
                     res.append(('C17.b:control:' + tag,) + seq_compare(list(ev(vs)), [rec['values'][j] for j in bp]))
-                    ts, vr = quiet(ocp.sample, v, grid='integrator', refine=sub + 1)
+                    ts, vr = quiet(ocp.sample, v, grid='integrator', refine=R)
                     res.append(('C17.b:refined:' + tag,) + seq_compare(list(ev(vr)), rec['values']))
                     tt = ev(ts)
                     okt = len(tt) == len(rec['points']) and all(abs(a - (0.5 + T * fl(p))) < 1e-9 for a, p in zip(tt, rec['points']))
                     res.append(('C17.b:refined_t:' + tag, 'ok' if okt else 'mismatch', 'times %s' % list(tt)[:6]))
                 else:
-                    _, dv = quiet(ocp.sample, dvs, grid='integrator', refine=sub + 1)
+                    _, dv = quiet(ocp.sample, dvs, grid='integrator', refine=R)
                     got = list(ev(dv) * T)      # derivative in physical time = derivative in normalised time / T
                     res.append(('C17.b:der:' + tag,) + seq_compare(got, rec['dvalues']))
                     if ddvs is not None:
-                        _, ddv = quiet(ocp.sample, ddvs, grid='integrator', refine=sub + 1)
+                        _, ddv = quiet(ocp.sample, ddvs, grid='integrator', refine=R)
                         res.append(('C17.b:der2:' + tag,) + seq_compare(list(ev(ddv) * T * T), rec['ddvalues']))
                     # d/dt[(x+v) t] = (x' + v') t + (x + v); at this probe x = u = 0, so it is v'(t) t + v(t)
                     tk, mv = quiet(ocp.sample, mixed, grid='control')
